@@ -249,7 +249,7 @@ class Paths:
             ls = set()
             for b in body:
                 for st in blocks[b]["s"]:
-                    if st["k"] == "assign":
+                    if st["k"] == "assign" and "*" not in st["place"]["p"]:     # a store through a pointer does not assign the pointer
                         ls.add(st["place"]["l"])
                 t = blocks[b]["t"]
                 if t and t["k"] == "call" and t.get("dest"):
